@@ -67,18 +67,6 @@ Definition blocklist_mac : N := zero_mac 6.
 Definition valid_mac (m : N) : bool :=
   let k := mac_len m in (k =? 6) || (k =? 8) || (k =? 20).
 
-Fixpoint mac_bytes_aux (n : nat) (m : N) (acc : bytes) : bytes :=
-  match n with O => acc | S n' => mac_bytes_aux n' (m / 256) (m mod 256 :: acc) end.
-Definition mac_bytes (m : N) : bytes := mac_bytes_aux (N.to_nat (mac_len m)) m [].
-Definition mac_of_bytes (b : bytes) : N := fold_left (fun a x => a * 256 + x) b 1.
-
-(** copy(dst, src) on hardware addresses: the first min(len) bytes of [src]
-    over [dst]; with equal lengths the result is [src]. *)
-Definition copy_mac (dst src : N) : N :=
-  if mac_len dst =? mac_len src then src
-  else let d := mac_bytes dst in let s := mac_bytes src in
-       mac_of_bytes (firstn (length d) s ++ skipn (length s) d).
-
 (** * Hostnames (ASCII) *)
 
 Definition is_nil {A} (l : list A) : bool := match l with [] => true | _ => false end.
@@ -297,7 +285,7 @@ Definition reserve (c : conf) (now : Z) (mac : N) (s : state) : state * reserved
   | None =>
       match find_expired now (leases s) with
       | None => (s, RsNone)
-      | Some (i, _) => (set_leases s (update_nth i (fun l => set_mac l (copy_mac (l_mac l) mac)) (leases s)), RsAt i)
+      | Some (i, _) => (set_leases s (update_nth i (fun l => set_mac l mac) (leases s)), RsAt i)
       end
   | Some ip =>
       match add_lease c (Lease ip mac [] false exp_zero) s with
